@@ -44,13 +44,18 @@ INVARIANT Prefix
 INVARIANT Exists
 INVARIANT Symmetric
 INVARIANT RadiusLaws
+INVARIANT EmitCap
 CHECK_DEADLOCK FALSE
 """
 
 
 def laws(ctx):
     q = "QMid" if ctx.tier == "thorough" else "QFew"
-    ctx.tlc_ok("NearestMC", LAWS_CFG % q, what="laws of the exact nearest order on the |c|<=1 lattice + 4 longer vectors, all 3-element sets, queries %s" % q, workers=8, timeout=1500)
+    r = ctx.tlc_ok("NearestMC", LAWS_CFG % q, what="laws of the exact nearest order on the |c|<=1 lattice + 4 longer vectors, all 3-element sets, queries %s" % q, workers=8, timeout=1500)
+    for v in r.prints:
+        if isinstance(v, tuple) and len(v) == 2 and v[0] == "CAP":
+            return {"places": list(v[1]["places"]), "poles": list(v[1]["poles"]), "unit_inv": int(v[1]["unit_inv"])}
+    raise Machinery("the polar-cap plan was not printed")
 
 
 # =============================================================================== 2. tree cache machine
